@@ -37,6 +37,7 @@ func runC01(c *Ctx) {
 	checkVoteDiscipline(c, "C01", upd, true)
 	checkMaxHeights(c, "C01")
 	checkWalkBack(c, "C01")
+	checkVoteInfoCarryOver(c, "C01", setP)
 	// R4
 	{
 		ff := factsOf(verify)
@@ -528,6 +529,7 @@ func runC02(c *Ctx) {
 		// the thresholds the height computation compares against are the LIP's function of the
 		// weights (prevote threshold ⌊2W/3⌋+1), stored as checked
 		checkThresholdBounds(c, "C02", setP)
+		checkVoteInfoCarryOver(c, "C02", setP)
 	}
 	if upd := c.Anchor("pkg/consensus/liskbft.(*BFTVotes).updatePrevotesPrecommits"); upd != nil {
 		checkVoteDiscipline(c, "C02", upd, false)
@@ -810,4 +812,115 @@ func checkWalkBack(c *Ctx, prop string) {
 		}
 	}
 	c.MinInstances(prop+".R5 walk-back", n, 2)
+}
+
+// checkVoteInfoCarryOver — R6. When the BFT parameters change, a validator that stays
+// active keeps its vote bookkeeping: the entry placed in the new list is the stored entry
+// (or copies minActiveHeight and largestHeightPrecommit from it). A fresh entry
+// (minActiveHeight = h', largestHeightPrecommit = h'−1, h' the height the new parameters are
+// stored under) is built only where the lookup of the address in the *whole* current list
+// failed. Rewinding largestHeightPrecommit of a retained validator lets its next block
+// precommit again what it already precommitted (its weight counts twice → two branches can
+// both reach the precommit threshold); treating a retained validator as new drops its votes
+// for earlier heights (heights differ from LIP-0058's).
+func checkVoteInfoCarryOver(c *Ctx, prop string, setP *ssa.Function) {
+	p := c.P
+	rule := prop + ".R6 vote-info-carried-over"
+	ff := factsOf(setP)
+	// the height the new parameters are stored under
+	var hNext *Term
+	for _, s := range CallsIn(setP, "db/diffdb.SetEncodable") {
+		v := stripConv(ArgK(s.Call, 2)).Type().String()
+		if !strings.HasSuffix(v, "liskbft.BFTParams") {
+			continue
+		}
+		k := T(ArgK(s.Call, 1))
+		if k.Op == "call" && strings.HasSuffix(k.Sym, "bytes.FromUint32") && len(k.Args) == 1 {
+			hNext = k.Args[0]
+		}
+	}
+	if hNext == nil {
+		c.Require(rule, FuncKey(setP)+": parameters key", p.Pos(setP.Pos()), "the new parameters are stored under bytes.FromUint32(h')", false, "key not recognised")
+		return
+	}
+	isLookup := func(t *Term, k int) bool {
+		if t == nil || t.Op != "extract" || len(t.Args) != 1 {
+			return false
+		}
+		if fmt.Sprintf("#%d", k) != t.Sym {
+			return false
+		}
+		cl := t.Args[0]
+		return cl.Op == "call" && strings.HasSuffix(cl.Sym, "liskbft.ActiveValidators).get")
+	}
+	lookupFailed := func(f Fact) bool {
+		if !f.IsCmp {
+			return !f.Truth && isLookup(f.B, 1)
+		}
+		// a whole-list library search that found nothing
+		s := f.String()
+		return (strings.Contains(s, "slices.IndexFunc(") || strings.Contains(s, "slices.Index(")) && (strings.Contains(s, "< 0") || strings.Contains(s, "== -1") || strings.Contains(s, "<= -1"))
+	}
+	nFresh, nKept := 0, 0
+	for _, b := range blocksDeep(setP) {
+		for _, in := range b.Instrs {
+			// the stored entry itself goes into the new list
+			if st, ok := in.(*ssa.Store); ok {
+				if isLookup(T(st.Val), 0) {
+					if _, isIdx := st.Addr.(*ssa.IndexAddr); isIdx {
+						nKept++
+					}
+				}
+				continue
+			}
+			al, ok := in.(*ssa.Alloc)
+			if !ok || !al.Heap {
+				continue
+			}
+			o, _ := ownerOfFieldBase(al.Type())
+			if o != bftPkg+".ActiveValidator" {
+				continue
+			}
+			fields := map[string]*Term{}
+			for _, r := range *al.Referrers() {
+				fa, ok := r.(*ssa.FieldAddr)
+				if !ok {
+					continue
+				}
+				_, stt := ownerOfFieldBase(al.Type())
+				name := fieldNameOf(stt.Field(fa.Field))
+				for _, rr := range *fa.Referrers() {
+					if st, ok := rr.(*ssa.Store); ok && st.Addr == fa {
+						fields[name] = T(st.Val)
+					}
+				}
+			}
+			mh, lp := fields["minActiveHeight"], fields["largestHeightPrecommit"]
+			if mh == nil || lp == nil {
+				c.Require(rule, FuncKey(setP)+": new ActiveValidator", p.InstrPos(al), "both minActiveHeight and largestHeightPrecommit of a built entry are set", false, fmt.Sprint(fields))
+				continue
+			}
+			fromStored := func(t *Term, f string) bool {
+				return t.Op == "field" && strings.HasSuffix(t.Sym, "."+f) && len(t.Args) == 1 && isLookup(t.Args[0], 0)
+			}
+			if fromStored(mh, "minActiveHeight") && fromStored(lp, "largestHeightPrecommit") {
+				nKept++
+				continue
+			}
+			nFresh++
+			gf := ff
+			if al.Parent() != setP {
+				gf = factsOf(al.Parent())
+			}
+			dom := gf.EveryPathHas(al.Block(), lookupFailed)
+			d := newLin()
+			d.add(linOf(mh), 1)
+			d.add(linOf(lp), -1)
+			okVals := mh.String() == hNext.String() && len(d.Coef) == 0 && d.Const == 1
+			c.Require(rule, FuncKey(setP)+": fresh ActiveValidator only for a new validator", p.InstrPos(al), "a fresh vote-info entry is built only where the lookup in the whole current list failed (a retained validator keeps its stored entry)", dom, "minActiveHeight="+mh.String()+" largestHeightPrecommit="+lp.String())
+			c.Require(rule, FuncKey(setP)+": fresh ActiveValidator fields", p.InstrPos(al), "a new validator may vote from the height the parameters take effect: minActiveHeight = h', largestHeightPrecommit = h'−1", okVals, "h'="+hNext.String()+" minActiveHeight="+mh.String()+" largestHeightPrecommit="+lp.String())
+		}
+	}
+	c.Require(rule, FuncKey(setP)+": retained validator keeps its entry", p.Pos(setP.Pos()), "the stored entry of a validator found in the current list goes into the new list", nKept >= 1, fmt.Sprintf("%d kept, %d fresh", nKept, nFresh))
+	c.MinInstances(rule, nFresh+nKept, 2)
 }
